@@ -334,15 +334,16 @@ func (s *Solver) Check(extras []*Term, want []*Term) (Result, []uint64) {
 
 func (s *Solver) checkIncr(extras []*Term, want []*Term) (Result, []uint64) {
 	var sb strings.Builder
-	sb.WriteString("(push 1)\n")
+	sb.WriteString("(check-sat-assuming (")
 	for _, e := range extras {
 		if e.IsTrue() {
 			continue
 		}
-		fmt.Fprintf(&sb, "(assert %s)\n", e.ref())
+		sb.WriteString(e.ref())
+		sb.WriteByte(' ')
 	}
 	m := fmt.Sprintf("<<m%d>>", atomic.AddInt64(&markerSeq, 1))
-	fmt.Fprintf(&sb, "(check-sat)\n(echo \"%s\")\n", m)
+	fmt.Fprintf(&sb, "))\n(echo \"%s\")\n", m)
 	s.raw(sb.String())
 	lines, ok := s.readUntilMarker(m, time.Duration(s.IncrMs)*time.Millisecond+2*time.Second)
 	if !ok {
@@ -361,7 +362,6 @@ func (s *Solver) checkIncr(extras []*Term, want []*Term) (Result, []uint64) {
 			if os.Getenv("SYMGO_DEBUG") != "" {
 				fmt.Fprintln(os.Stderr, "solver error:", l)
 			}
-			s.raw("(pop 1)\n")
 			return Unknown, nil
 		}
 	}
@@ -371,9 +371,6 @@ func (s *Solver) checkIncr(extras []*Term, want []*Term) (Result, []uint64) {
 		if !ok {
 			res = Unknown
 		}
-	}
-	if s.p != nil {
-		s.raw("(pop 1)\n")
 	}
 	return res, vals
 }
